@@ -97,7 +97,8 @@ class Gen:
         return self.rnd.choice([0, 0, 1, 1, 1, 2, 2, 3, big])
 
     def ints(self, f, big=6):
-        return [f() for _ in range(self.count(big))]
+        n = self.rnd.randint(9, 40) if self.rnd.random() < 0.08 else self.count(big)
+        return [f() for _ in range(n)]
 
 
 # ------------------------------------------------------------------ abstract responses: generators
@@ -652,6 +653,25 @@ def run(ck):
         add("metadata", r, 0, None, expected("metadata", r) if nb <= 1024 else [5], label="metadata_%d_brokers" % nb)
     r = (2, [(b"big", [(p, 0, p * 10, p) for p in range(300 if not thorough else 3000)])], 7)
     add("produce", r, 2, None, expected("produce", r), label="produce_many_partitions")
+    # wide shapes for every counted loop: many topics, many partitions, many members / offsets / replicas / keys
+    W = 40 if not thorough else 400
+    wide = {
+        "produce": (1, [(b"t%d" % i, [(i, 0, i, i)]) for i in range(W)] + [(b"w", [(p, g.err(), g.i64(), g.i64()) for p in range(W)])], 3),
+        "fetch": (1, 2, [(b"t%d" % i, [(i, 0, i, None)]) for i in range(W)] + [(b"w", [(p, g.err(), g.i64(), b"") for p in range(W)])]),
+        "offsets": (1, [(b"t%d" % i, [(i, 0, [i])]) for i in range(W)] + [(b"w", [(p, g.err(), [g.i64() for _ in range(W)]) for p in range(W // 4)])]),
+        "commit": (1, [(b"t%d" % i, [(i, 0)]) for i in range(W)] + [(b"w", [(p, g.err()) for p in range(W)])]),
+        "ofetch": (1, [(b"t%d" % i, [(i, i, None, 0)]) for i in range(W)] + [(b"w", [(p, g.i64(), g.oblob(), g.err()) for p in range(W)])]),
+        "metadata": (1, [(i, b"h%d" % i, 9092 + i) for i in range(W)],
+                     [(0, b"t%d" % i, [(0, 0, i, [i], [i])]) for i in range(W)]
+                     + [(g.err(), b"w", [(g.err(), p, g.i32(), [g.i32() for _ in range(W // 2)], [g.i32() for _ in range(W // 3)]) for p in range(W)])]),
+        "join": (1, 0, 5, b"range", b"leader", b"me", [(b"member-%d" % i, CL.rbytes(rnd, i)) for i in range(W)]),
+        "apiversions": (1, 0, [(k, 0, k % 7) for k in range(W * 2)]),
+        "subscription": (0, [b"topic-%d" % i for i in range(W)], b"ud"),
+        "assignment": (0, [(b"topic-%d" % i, list(range(i))) for i in range(W)], None),
+    }
+    for api, r in wide.items():
+        for ver in ((0, 2) if api in VERSIONS else (0,)):
+            add(api, r, ver, None, expected(api, r, ver, empty_msgs), label=api + "_wide")
     if thorough:
         # exhaustive small scope: every (topics, partitions) shape up to 3x3 for the five topic/partition generators
         for api in ("produce", "offsets", "commit", "ofetch", "fetch"):
